@@ -24,6 +24,9 @@ pub struct Case {
     pub fault: String,
     /// "lexical" | "syntactic" | "resolution" | "type" | "sqlgen"
     pub class: String,
+    /// line endings of the whole source: "\n" or "\r\n"
+    #[serde(default)]
+    pub crlf: bool,
 }
 
 const MB: &[&str] = &["é", "ü", "日", "本", "ß", "€", "😀", "ñ"];
@@ -75,10 +78,20 @@ pub fn gen_case(t: &mut Tape) -> Case {
         body: base,
         fault,
         class: class.into(),
+        crlf: t.chance(1, 4),
     }
 }
 
 pub fn assemble(c: &Case, pad: &str) -> String {
+    let s = assemble_lf(c, pad);
+    if c.crlf {
+        s.replace('\n', "\r\n")
+    } else {
+        s
+    }
+}
+
+fn assemble_lf(c: &Case, pad: &str) -> String {
     match c.pad_kind.as_str() {
         "comment-line" => format!("# {pad}\n{}{}\n", c.body, c.fault),
         "string-literal" => format!("{} | derive {{zpad = \"{pad}\"}}{}\n", c.body, c.fault),
@@ -123,7 +136,8 @@ fn validate(src: &str) -> Result<Option<Vec<Seen>>, (String, Value)> {
         return Err(("compile fails with an empty error list".into(), json!({})));
     }
     let nchars = src.chars().count();
-    let lines: Vec<&str> = src.split('\n').collect();
+    let raw_lines: Vec<&str> = src.split('\n').collect();
+    let lines: Vec<&str> = raw_lines.iter().map(|l| l.trim_end_matches('\r')).collect();
     let mut seen = vec![];
     for m in &errs.inner {
         if m.reason.trim().is_empty() {
@@ -158,7 +172,7 @@ fn validate(src: &str) -> Result<Option<Vec<Seen>>, (String, Value)> {
                     // length + 1) or as (next line, 0): both denote the end of the file
                     let eof_alt = |off: usize, want: (usize, usize), got: (usize, usize)| -> bool {
                         off == nchars && src.ends_with('\n') && want.1 == 0 && want.0 > 0 && got.0 == want.0 - 1
-                            && got.1 == lines.get(got.0).map(|l| l.chars().count() + 1).unwrap_or(usize::MAX)
+                            && got.1 == raw_lines.get(got.0).map(|l| l.chars().count() + 1).unwrap_or(usize::MAX)
                     };
                     let ok_s = l.start == es || eof_alt(sp.start, es, l.start);
                     let ok_e = l.end == ee || eof_alt(sp.end, ee, l.end);
